@@ -116,7 +116,9 @@ def parse_race_stacks(text):
         elif ln.startswith("Goroutine ") or ln.strip().startswith("Goroutine "):
             cur = None
         elif cur is not None and ln.startswith("  ") and not ln.startswith("   ") and "(" in ln:
-            fn = ln.strip().split("(")[0]
+            fn = ln.strip()
+            if fn.endswith("()"):
+                fn = fn[:-2]
             f = lines[i + 1].strip() if i + 1 < len(lines) else ""
             cur.append((fn, f))
             i += 1
@@ -336,12 +338,15 @@ def replay_file(binaries, path):
     binary = binaries["race" if rf.get("build") == "race" else "plain"]
     if rf.get("rule") in ("data-race", "crash", "busy-loop") or rf.get("scenario") is None:
         # process-level findings: re-run exactly that (seed, run) and look at how the process ends
-        b = Batch(prop, rf["verif_seed"], "quick", binary, 1, label=rf.get("build", "plain"), start=rf["run"])
-        b.run()
-        b.cleanup()
-        for v in b.violations:
-            if v.get("rule") == rf.get("rule"):
-                return True, v
+        # under the race build sync.Pool drops Puts at random, so the same
+        # (seed, run) is retried a few times before giving up
+        for attempt in range(6 if rf.get("build") == "race" else 1):
+            b = Batch(prop, rf["verif_seed"], "quick", binary, 1, label=rf.get("build", "plain"), start=rf["run"])
+            b.run()
+            b.cleanup()
+            for v in b.violations:
+                if v.get("rule") == rf.get("rule"):
+                    return True, v
         return False, None
     recs, err, rc = one_shot(binary, prop, "replay", dict(VERIF_REPLAY=path))
     for r in recs:
